@@ -270,20 +270,24 @@ Section Match.
   Variable launch_ok : piece -> str -> bool.
   Variable final : piece -> seg.
   Hypothesis final_text : forall t, final (PText t) = SText t.
-  Hypothesis final_launch : forall p, match p with PText _ => True | _ =>
-    launch_ok p (seg_text (final p)) = true /\ seg_text (final p) <> [] end.
+  Definition launch_good (p : piece) : Prop :=
+    match p with PText _ => True | _ =>
+      launch_ok p (seg_text (final p)) = true /\ seg_text (final p) <> [] end.
 
-  Lemma match_body_final : forall ps tail,
+  Lemma match_body_final : forall ps tail, (forall p, In p ps -> launch_good p) ->
     match_body launch_ok (ps ++ [PText tail]) (segs_text (map final ps) ++ tail) = true.
   Proof.
-    induction ps as [|p r]; intros tail.
+    induction ps as [|p r]; intros tail FL.
     - simpl. rewrite prefixb_refl. rewrite skipn_all. reflexivity.
     - change ((p :: r) ++ [PText tail]) with (p :: (r ++ [PText tail])).
       rewrite map_cons, segs_text_cons. rewrite <- app_assoc.
+      assert (IH : match_body launch_ok (r ++ [PText tail]) (segs_text (map final r) ++ tail) = true).
+      { apply IHr. intros q I. apply FL. right. auto. }
+      pose proof (FL p (or_introl eq_refl)) as G.
       destruct p as [t| |f].
       + rewrite final_text. simpl seg_text. simpl match_body. rewrite prefixb_app.
-        rewrite skipn_app, skipn_all, Nat.sub_diag. simpl. apply IHr.
-      + destruct (final_launch PBare) as [L NE]. set (x := seg_text (final PBare)) in *.
+        rewrite skipn_app, skipn_all, Nat.sub_diag. simpl. apply IH.
+      + destruct G as [L NE]. set (x := seg_text (final PBare)) in *.
         change (match_body launch_ok (PBare :: r ++ [PText tail]) (x ++ segs_text (map final r) ++ tail))
           with (existsb (fun k => if launch_ok PBare (firstn k (x ++ segs_text (map final r) ++ tail))
                                   then match_body launch_ok (r ++ [PText tail]) (skipn k (x ++ segs_text (map final r) ++ tail))
@@ -292,8 +296,8 @@ Section Match.
         apply existsb_exists. exists (List.length x). split.
         * apply in_seq. rewrite app_length. destruct x; try congruence. simpl. lia.
         * rewrite firstn_app, firstn_all, Nat.sub_diag. simpl firstn. rewrite app_nil_r. rewrite L.
-          rewrite skipn_app, skipn_all, Nat.sub_diag. simpl. apply IHr.
-      + destruct (final_launch (PTok f)) as [L NE]. set (x := seg_text (final (PTok f))) in *.
+          rewrite skipn_app, skipn_all, Nat.sub_diag. simpl. apply IH.
+      + destruct G as [L NE]. set (x := seg_text (final (PTok f))) in *.
         change (match_body launch_ok (PTok f :: r ++ [PText tail]) (x ++ segs_text (map final r) ++ tail))
           with (existsb (fun k => if launch_ok (PTok f) (firstn k (x ++ segs_text (map final r) ++ tail))
                                   then match_body launch_ok (r ++ [PText tail]) (skipn k (x ++ segs_text (map final r) ++ tail))
@@ -302,6 +306,6 @@ Section Match.
         apply existsb_exists. exists (List.length x). split.
         * apply in_seq. rewrite app_length. destruct x; try congruence. simpl. lia.
         * rewrite firstn_app, firstn_all, Nat.sub_diag. simpl firstn. rewrite app_nil_r. rewrite L.
-          rewrite skipn_app, skipn_all, Nat.sub_diag. simpl. apply IHr.
+          rewrite skipn_app, skipn_all, Nat.sub_diag. simpl. apply IH.
   Qed.
 End Match.
